@@ -37,9 +37,15 @@ def cfg_desc(cfg):
     return {k: (rs(v) if isinstance(v, Q) else v) for k, v in cfg.items()}
 
 
-def run_stream(chk, cfg, nsteps, perms=None):
-    """drive a fresh explainer through `nsteps` explain_one calls with varied per-call options"""
+def run_stream(chk, cfg, nsteps, perms=None, faults=0):
+    """drive a fresh explainer through `nsteps` explain_one calls with varied per-call options; with `faults` > 0 that many
+    callback invocations (model / loss / storage update, after the first call) raise once and the stream is resumed"""
     rig = explain.Rig(chk.rng, **cfg)
+    if faults:
+        # upper bound of invocations per explained call: 1 model + 2 loss + d * (n_max model + 1 loss) + 1 storage
+        per = 4 + cfg["d"] * 4
+        lo = 2  # the first call makes one storage update (invocation 0); start faults later
+        rig.fail_at = {chk.rng.randrange(lo, lo + per * (nsteps - 1)): True for _ in range(faults)}
     for t in range(nsteps):
         kw = {}
         r = chk.rng.random()
@@ -65,10 +71,12 @@ def compare(rig, ans, observables):
     diffs = []
     if "error" in ans:
         return [(-1, "driver", ans["error"], None)]
-    for t, (rec, a) in enumerate(zip(rig.steps, ans["steps"])):
-        if rec["error"] is not None:
-            diffs.append((t, "exception", rec["error"] + ": " + rec.get("error_text", ""), None))
-            break
+    ok_steps = [(t, rec) for t, rec in enumerate(rig.steps) if rec["error"] is None]
+    bad = [(t, rec) for t, rec in enumerate(rig.steps) if rec["error"] not in (None, "fault")]
+    if bad:
+        t, rec = bad[0]
+        return [(t, "exception", rec["error"] + ": " + rec.get("error_text", ""), None)]
+    for (t, rec), a in zip(ok_steps, ans["steps"]):
         m = core.jnorm(explain.est_from_model(a))
         impl = core.jnorm(rec["est"])
         for ob in observables:
@@ -90,13 +98,31 @@ def spec_equality_check(chk, pid, kind, observables, nconfigs, extra_case=None, 
     running statistic of the per-observation contributions) evaluated on the recorded callbacks; a difference on a
     property observable is a violation with the recorded stream as failing input."""
     rigs, cfgs = [], []
-    for cfg in gen_configs(chk, kind, nconfigs):
-        rig = run_stream(chk, cfg, chk.rng.randint(3, 6))
-        bad = [r for r in rig.steps if r["error"] is not None]
+    for ci, cfg in enumerate(gen_configs(chk, kind, nconfigs)):
+        nfaults = chk.rng.randint(1, 2) if ci % 4 == 3 else 0     # every fourth stream has callbacks that fail and is resumed
+        rig = run_stream(chk, cfg, chk.rng.randint(3, 6) + (2 if nfaults else 0), faults=nfaults)
+        if nfaults:
+            chk.stat("streams_with_faults")
+            chk.stat("faults_hit", sum(1 for r in rig.steps if r["error"] == "fault"))
+            # a failing call must leave the estimates exactly as they were
+            prev = None
+            for t, r in enumerate(rig.steps):
+                if r["error"] == "fault" and prev is not None and r["est"] != prev:
+                    chk.violation("fault-changed-estimates", f"{label} {cfg_desc(cfg)}: a callback raised during call {t + 1} and the estimates changed "
+                                  f"from {prev} to {r['est']}", replay_payload(rig, cfg, t))
+                    break
+                prev = r["est"]
+        bad = [r for r in rig.steps if r["error"] not in (None, "fault")]
         if bad:
             r = bad[0]
             chk.violation("exception", f"{label} {cfg_desc(cfg)} raised {r['error']}: {r.get('error_text')}",
                           replay_payload(rig, cfg, rig.steps.index(r)))
+        for t, r in enumerate(rig.steps):
+            if r["error"] is None:
+                f = imputer_inputs_fail(rig, r)
+                if f:
+                    chk.violation("imputed-inputs", f"{label} {cfg_desc(cfg)} call {t + 1}: {f}", replay_payload(rig, cfg, t))
+                    break
         if extra_case:
             extra_case(rig, cfg)
         chk.case({"config": cfg_desc(cfg), "first_x": rig.steps[0]["x"], "calls": len(rig.steps),
@@ -132,3 +158,28 @@ def spec_equality_check(chk, pid, kind, observables, nconfigs, extra_case=None, 
                               f"statistic of the recorded per-observation contributions is {str(mv)[:300]}",
                               dict(replay_payload(rig, cfg, t), observable=ob, expected=mv, observed=iv))
     return rigs, cfgs, answers
+
+
+def imputer_inputs_fail(rig, rec):
+    """the model inputs made inside the imputer calls of one explain_one: outside the requested subset they equal the explained
+    instance, inside it they are background values (a stored row's value for that feature / the configured default)"""
+    x = rec["x"]
+    rows = rec["rows_before"]
+    for c in rec["imp_calls"]:
+        S = c["subset"]
+        for z in c.get("inputs", []):
+            for g in range(rig.d):
+                if g not in S:
+                    if z[g] != x[g]:
+                        return f"imputer call for subset {S}: feature {rig.names[g]!r} outside the subset was changed from {x[g]} to {z[g]}"
+                elif rig.imputer_kind == "default" and hasattr(rig, "default_values"):
+                    want = rs(Q(rig.default_values[rig.names[g]]))
+                    if z[g] != want:
+                        return f"imputer call for subset {S}: feature {rig.names[g]!r} is {z[g]}, not the configured default {want}"
+                elif rig.imputer_kind in ("joint", "product") and rows:
+                    if not any(r[g] == z[g] for r in rows):
+                        return f"imputer call for subset {S}: value {z[g]} of feature {rig.names[g]!r} is not that feature's value in any stored observation"
+            if rig.imputer_kind == "joint" and rows and S:
+                if not any(all(r[g] == z[g] for g in S) for r in rows):
+                    return f"imputer call for subset {S} (joint strategy): the imputed values {[z[g] for g in S]} do not come from ONE stored observation"
+    return None
